@@ -311,13 +311,55 @@ func c19Same(c *Ctx) {
 // one scan over the argument, the accumulator grows by append(acc, labelToBytes(name)...) on every iteration, every
 // return yields the accumulator after the scan. (No compression pointers, no size-dependent alternative form: DHCPv6
 // forbids compression (RFC 8415 §10) and the decoder of the peer need not implement it.)
+// perNameEncoder: the function that encodes ONE name, found by role: the module function the list encoder calls in
+// its scan with the scanned element — either `acc = append(acc, enc(name)...)` (returns a fresh encoding) or
+// `acc = enc(acc, name)` (append style: extends and returns its first argument). nameIdx / dstIdx are the positions of
+// the name and of the destination parameter (dstIdx = -1 for the first style).
+func perNameEncoder(c *Ctx) (per *ssa.Function, nameIdx, dstIdx int) {
+	f := lblFunc(c, "labelsToBytes")
+	if f == nil {
+		return nil, -1, -1
+	}
+	sx := c.Sx()
+	for _, l := range findScanLoops(f) {
+		if l.coll != ssa.Value(f.Params[0]) {
+			continue
+		}
+		el := l.elems(sx)
+		for b := range l.loop {
+			for _, in := range b.Instrs {
+				cl, ok := in.(*ssa.Call)
+				if !ok || cl.Call.StaticCallee() == nil || !inModule(cl.Call.StaticCallee()) || pkgPathOf(cl.Call.StaticCallee()) != lblPkg {
+					continue
+				}
+				ni, di := -1, -1
+				for ai, a := range cl.Call.Args {
+					if el[a] {
+						ni = ai
+					} else if _, isSl := a.Type().Underlying().(*types.Slice); isSl {
+						di = ai
+					}
+				}
+				if ni >= 0 {
+					return cl.Call.StaticCallee(), ni, di
+				}
+			}
+		}
+	}
+	return nil, -1, -1
+}
+
+// c19ListEncoder: labelsToBytes is the plain concatenation of the per-name encodings, in order, for every list:
+// one scan over the argument, the accumulator grows by the encoding of each name on every iteration (either style of
+// perNameEncoder), every return yields the accumulator after the scan. (No compression pointers, no size-dependent
+// alternative form: DHCPv6 forbids compression (RFC 8415 §10) and the decoder of the peer need not implement it.)
 func c19ListEncoder(c *Ctx) {
 	r, sx := c.R, c.Sx()
 	f := lblFunc(c, "labelsToBytes")
-	per := lblFunc(c, "labelToBytes")
+	per, nameIdx, dstIdx := perNameEncoder(c)
 	key := "rfc1035label.labelsToBytes: the encoding of a list is the concatenation of the encodings of its names, in order, on every path"
 	if f == nil || per == nil {
-		r.Undecided("C19-K2", key, "-", "labelsToBytes / labelToBytes not found")
+		r.Undecided("C19-K2", key, "-", "the list encoder labelsToBytes or the per-name encoder it calls in its scan was not found")
 		return
 	}
 	ls := findScanLoops(f)
@@ -349,23 +391,30 @@ func c19ListEncoder(c *Ctx) {
 				continue
 			}
 			cl, isCall := e.(*ssa.Call)
-			if !isCall || !isBuiltinCall(cl.Common(), "append") || len(cl.Call.Args) != 2 || cl.Call.Args[0] != ssa.Value(ph) {
+			if !isCall {
 				good = false
 				continue
 			}
-			enc, isEnc := cl.Call.Args[1].(*ssa.Call)
-			if !isEnc || enc.Call.StaticCallee() != per || len(enc.Call.Args) != 1 || !el[enc.Call.Args[0]] {
+			switch {
+			case isBuiltinCall(cl.Common(), "append") && len(cl.Call.Args) == 2 && cl.Call.Args[0] == ssa.Value(ph):
+				enc, isEnc := cl.Call.Args[1].(*ssa.Call)
+				if !isEnc || enc.Call.StaticCallee() != per || dstIdx >= 0 || nameIdx >= len(enc.Call.Args) || !el[enc.Call.Args[nameIdx]] {
+					good = false
+					continue
+				}
+				a = cl
+			case cl.Call.StaticCallee() == per && dstIdx >= 0 && dstIdx < len(cl.Call.Args) && cl.Call.Args[dstIdx] == ssa.Value(ph) && el[cl.Call.Args[nameIdx]]:
+				a = cl
+			default:
 				good = false
-				continue
 			}
-			a = cl
 		}
 		if good && a != nil {
 			acc, app = ph, a
 		}
 	}
 	if acc == nil {
-		ok, why = false, "no accumulator that starts empty and grows by append(acc, labelToBytes(name)...) on every iteration"
+		ok, why = false, "no accumulator that starts empty and grows by the encoding of each name on every iteration"
 	}
 	if ok {
 		for _, rt := range returnsOf(f) {
@@ -378,18 +427,51 @@ func c19ListEncoder(c *Ctx) {
 	if app != nil {
 		pos = c.P.ipos(app)
 	}
-	r.Check(ok, "C19-K2", key, pos, "scan loop, unconditional append of the per-name encoding, accumulator returned", why)
+	r.Check(ok, "C19-K2", key, pos, "scan loop, unconditional extension by the per-name encoding, accumulator returned", why)
 }
 
 func c19Encoder(c *Ctx) {
 	c19ListEncoder(c)
 	r, sx := c.R, c.Sx()
-	f := lblFunc(c, "labelToBytes")
+	f, nameIdx, dstIdx := perNameEncoder(c)
 	if f == nil {
-		r.Undecided("C19-K2", "rfc1035label.labelToBytes", "-", "not found")
+		r.Undecided("C19-K2", "rfc1035label: per-name encoder", "-", "the function labelsToBytes calls with each name was not found")
 		return
 	}
-	key := func(s string) string { return "rfc1035label.labelToBytes: " + s }
+	// append style: everything the encoder emits is appended onto its destination parameter, which every return hands back
+	if dstIdx >= 0 {
+		dst := ssa.Value(f.Params[dstIdx])
+		visiting := map[ssa.Value]bool{}
+		var onDst func(v ssa.Value, d int) bool
+		onDst = func(v ssa.Value, d int) bool {
+			if v == dst || visiting[v] {
+				return true
+			}
+			if d > 12 {
+				return false
+			}
+			switch t := v.(type) {
+			case *ssa.Phi:
+				visiting[v] = true
+				defer delete(visiting, v)
+				for _, e := range t.Edges {
+					if e != v && !onDst(e, d+1) {
+						return false
+					}
+				}
+				return true
+			case *ssa.Call:
+				return isBuiltinCall(t.Common(), "append") && onDst(t.Call.Args[0], d+1)
+			}
+			return false
+		}
+		okDst := true
+		for _, rt := range returnsOf(f) {
+			okDst = okDst && len(rt.Results) == 1 && onDst(rt.Results[0], 0)
+		}
+		r.Check(okDst, "C19-K2", "rfc1035label."+f.Name()+": extends the destination it is given and returns it", c.P.pos(f.Pos()), "every result is a chain of appends onto the destination parameter", "the encoder returns something other than its destination extended by the name")
+	}
+	key := func(s string) string { return "rfc1035label." + f.Name() + ": " + s }
 	var appends []*ssa.Call
 	allInstrs(f, func(in ssa.Instruction) {
 		if cl, ok := in.(*ssa.Call); ok && isBuiltinCall(cl.Common(), "append") {
@@ -498,28 +580,12 @@ func c19Encoder(c *Ctx) {
 	okSplit := false
 	allInstrs(f, func(in ssa.Instruction) {
 		if cl, ok := in.(*ssa.Call); ok && isFuncCall(cl.Common(), "strings", "Split") {
-			if sx.Of(cl.Call.Args[1]).String() == `const(".")` && cl.Call.Args[0] == ssa.Value(f.Params[0]) {
+			if sx.Of(cl.Call.Args[1]).String() == `const(".")` && cl.Call.Args[0] == ssa.Value(f.Params[nameIdx]) {
 				okSplit = true
 			}
 		}
 	})
 	r.Check(okSplit, "C19-K2", key("parts are the dot-separated components of the name"), c.P.pos(f.Pos()), `strings.Split(label, ".")`, "the name is not split on dots")
-	// labelsToBytes concatenates in order
-	g := lblFunc(c, "labelsToBytes")
-	if g == nil {
-		r.Undecided("C19-K2", "rfc1035label.labelsToBytes", "-", "not found")
-		return
-	}
-	okCat := false
-	allInstrs(g, func(in ssa.Instruction) {
-		if cl, ok := in.(*ssa.Call); ok && isBuiltinCall(cl.Common(), "append") && inCycle(cl.Block()) {
-			s := sx.Of(cl.Call.Args[1]).String()
-			if strings.HasPrefix(s, "call[rfc1035label.labelToBytes](") {
-				okCat = true
-			}
-		}
-	})
-	r.Check(okCat, "C19-K2", "rfc1035label.labelsToBytes: names are encoded one after the other in list order", c.P.pos(g.Pos()), "append(acc, labelToBytes(name)...) in a range loop", "")
 }
 
 func c19Decoder(c *Ctx) {
